@@ -1209,5 +1209,206 @@ theorem ran_ugaussian_pdf_h0 (x : ℝ) (hI0 : Ident I "gsl_ran_ugaussian_pdf" x)
     try ring
     all_goals (try simp)
 
-end MpVerif.C16
 
+/-! ### bindings f(order, x) (round 8): the order is a parameter of the symbol (`f@k` = f of order + k), the derivative is w.r.t. x (argument 1);
+only `derivs[1]` and `hes[2]` = ∂²/∂x² are assigned by these bindings (the order must be declared constant).  Conditional on `Ident`, as above. -/
+
+theorem bessel_Jn_d1 (n x : ℝ) (hI0 : Ident I "gsl_sf_bessel_Jn@0" x) :
+    HasDerivAt (fun t => evalT I (Function.update (envOf [n, x]) 1 t) (f_gsl_sf_bessel_Jn.value)) (evalT I (envOf [n, x]) (f_gsl_sf_bessel_Jn.d 1)) x := by
+  refine deriv_of_formula I _ _ _ _ ?_ ?_
+  · simp [f_gsl_sf_bessel_Jn, Formulas.d, Formulas.h, RExpr.inline, specE, RExpr.subst, Ok, dsym, dsymE, eval, envOf, *]
+  · simp [f_gsl_sf_bessel_Jn, Formulas.d, Formulas.h, RExpr.inline, specE, RExpr.subst, dsym, dsymE, eval, diff, envOf, *]
+    try field_simp
+    try ring
+    all_goals (try simp)
+
+theorem bessel_Jn_h2 (n x : ℝ) (hI0 : Ident I "gsl_sf_bessel_Jn@-1" x) (hI1 : Ident I "gsl_sf_bessel_Jn@1" x) :
+    HasDerivAt (fun t => evalT I (Function.update (envOf [n, x]) 1 t) (f_gsl_sf_bessel_Jn.d 1)) (evalT I (envOf [n, x]) (f_gsl_sf_bessel_Jn.h 2)) x := by
+  refine deriv_of_formula I _ _ _ _ ?_ ?_
+  · simp [f_gsl_sf_bessel_Jn, Formulas.d, Formulas.h, RExpr.inline, specE, RExpr.subst, Ok, dsym, dsymE, eval, envOf, *]
+  · simp [f_gsl_sf_bessel_Jn, Formulas.d, Formulas.h, RExpr.inline, specE, RExpr.subst, dsym, dsymE, eval, diff, envOf, *]
+    try field_simp
+    try ring
+    all_goals (try simp)
+
+theorem bessel_Yn_d1 (n x : ℝ) (hI0 : Ident I "gsl_sf_bessel_Yn@0" x) :
+    HasDerivAt (fun t => evalT I (Function.update (envOf [n, x]) 1 t) (f_gsl_sf_bessel_Yn.value)) (evalT I (envOf [n, x]) (f_gsl_sf_bessel_Yn.d 1)) x := by
+  refine deriv_of_formula I _ _ _ _ ?_ ?_
+  · simp [f_gsl_sf_bessel_Yn, Formulas.d, Formulas.h, RExpr.inline, specE, RExpr.subst, Ok, dsym, dsymE, eval, envOf, *]
+  · simp [f_gsl_sf_bessel_Yn, Formulas.d, Formulas.h, RExpr.inline, specE, RExpr.subst, dsym, dsymE, eval, diff, envOf, *]
+    try field_simp
+    try ring
+    all_goals (try simp)
+
+theorem bessel_Yn_h2 (n x : ℝ) (hI0 : Ident I "gsl_sf_bessel_Yn@-1" x) (hI1 : Ident I "gsl_sf_bessel_Yn@1" x) :
+    HasDerivAt (fun t => evalT I (Function.update (envOf [n, x]) 1 t) (f_gsl_sf_bessel_Yn.d 1)) (evalT I (envOf [n, x]) (f_gsl_sf_bessel_Yn.h 2)) x := by
+  refine deriv_of_formula I _ _ _ _ ?_ ?_
+  · simp [f_gsl_sf_bessel_Yn, Formulas.d, Formulas.h, RExpr.inline, specE, RExpr.subst, Ok, dsym, dsymE, eval, envOf, *]
+  · simp [f_gsl_sf_bessel_Yn, Formulas.d, Formulas.h, RExpr.inline, specE, RExpr.subst, dsym, dsymE, eval, diff, envOf, *]
+    try field_simp
+    try ring
+    all_goals (try simp)
+
+theorem bessel_In_d1 (n x : ℝ) (hI0 : Ident I "gsl_sf_bessel_In@0" x) :
+    HasDerivAt (fun t => evalT I (Function.update (envOf [n, x]) 1 t) (f_gsl_sf_bessel_In.value)) (evalT I (envOf [n, x]) (f_gsl_sf_bessel_In.d 1)) x := by
+  refine deriv_of_formula I _ _ _ _ ?_ ?_
+  · simp [f_gsl_sf_bessel_In, Formulas.d, Formulas.h, RExpr.inline, specE, RExpr.subst, Ok, dsym, dsymE, eval, envOf, *]
+  · simp [f_gsl_sf_bessel_In, Formulas.d, Formulas.h, RExpr.inline, specE, RExpr.subst, dsym, dsymE, eval, diff, envOf, *]
+    try field_simp
+    try ring
+    all_goals (try simp)
+
+theorem bessel_In_h2 (n x : ℝ) (hI0 : Ident I "gsl_sf_bessel_In@-1" x) (hI1 : Ident I "gsl_sf_bessel_In@1" x) :
+    HasDerivAt (fun t => evalT I (Function.update (envOf [n, x]) 1 t) (f_gsl_sf_bessel_In.d 1)) (evalT I (envOf [n, x]) (f_gsl_sf_bessel_In.h 2)) x := by
+  refine deriv_of_formula I _ _ _ _ ?_ ?_
+  · simp [f_gsl_sf_bessel_In, Formulas.d, Formulas.h, RExpr.inline, specE, RExpr.subst, Ok, dsym, dsymE, eval, envOf, *]
+  · simp [f_gsl_sf_bessel_In, Formulas.d, Formulas.h, RExpr.inline, specE, RExpr.subst, dsym, dsymE, eval, diff, envOf, *]
+    try field_simp
+    try ring
+    all_goals (try simp)
+
+theorem bessel_Kn_d1 (n x : ℝ) (hI0 : Ident I "gsl_sf_bessel_Kn@0" x) :
+    HasDerivAt (fun t => evalT I (Function.update (envOf [n, x]) 1 t) (f_gsl_sf_bessel_Kn.value)) (evalT I (envOf [n, x]) (f_gsl_sf_bessel_Kn.d 1)) x := by
+  refine deriv_of_formula I _ _ _ _ ?_ ?_
+  · simp [f_gsl_sf_bessel_Kn, Formulas.d, Formulas.h, RExpr.inline, specE, RExpr.subst, Ok, dsym, dsymE, eval, envOf, *]
+  · simp [f_gsl_sf_bessel_Kn, Formulas.d, Formulas.h, RExpr.inline, specE, RExpr.subst, dsym, dsymE, eval, diff, envOf, *]
+    try field_simp
+    try ring
+    all_goals (try simp)
+
+theorem bessel_Kn_h2 (n x : ℝ) (hI0 : Ident I "gsl_sf_bessel_Kn@-1" x) (hI1 : Ident I "gsl_sf_bessel_Kn@1" x) :
+    HasDerivAt (fun t => evalT I (Function.update (envOf [n, x]) 1 t) (f_gsl_sf_bessel_Kn.d 1)) (evalT I (envOf [n, x]) (f_gsl_sf_bessel_Kn.h 2)) x := by
+  refine deriv_of_formula I _ _ _ _ ?_ ?_
+  · simp [f_gsl_sf_bessel_Kn, Formulas.d, Formulas.h, RExpr.inline, specE, RExpr.subst, Ok, dsym, dsymE, eval, envOf, *]
+  · simp [f_gsl_sf_bessel_Kn, Formulas.d, Formulas.h, RExpr.inline, specE, RExpr.subst, dsym, dsymE, eval, diff, envOf, *]
+    try field_simp
+    try ring
+    all_goals (try simp)
+
+theorem bessel_Kn_scaled_d1 (n x : ℝ) (hI0 : Ident I "gsl_sf_bessel_Kn_scaled@0" x) :
+    HasDerivAt (fun t => evalT I (Function.update (envOf [n, x]) 1 t) (f_gsl_sf_bessel_Kn_scaled.value)) (evalT I (envOf [n, x]) (f_gsl_sf_bessel_Kn_scaled.d 1)) x := by
+  refine deriv_of_formula I _ _ _ _ ?_ ?_
+  · simp [f_gsl_sf_bessel_Kn_scaled, Formulas.d, Formulas.h, RExpr.inline, specE, RExpr.subst, Ok, dsym, dsymE, eval, envOf, *]
+  · simp [f_gsl_sf_bessel_Kn_scaled, Formulas.d, Formulas.h, RExpr.inline, specE, RExpr.subst, dsym, dsymE, eval, diff, envOf, *]
+    try field_simp
+    try ring
+    all_goals (try simp)
+
+theorem bessel_Kn_scaled_h2 (n x : ℝ) (hI0 : Ident I "gsl_sf_bessel_Kn_scaled@-1" x) (hI1 : Ident I "gsl_sf_bessel_Kn_scaled@0" x) (hI2 : Ident I "gsl_sf_bessel_Kn_scaled@1" x) :
+    HasDerivAt (fun t => evalT I (Function.update (envOf [n, x]) 1 t) (f_gsl_sf_bessel_Kn_scaled.d 1)) (evalT I (envOf [n, x]) (f_gsl_sf_bessel_Kn_scaled.h 2)) x := by
+  refine deriv_of_formula I _ _ _ _ ?_ ?_
+  · simp [f_gsl_sf_bessel_Kn_scaled, Formulas.d, Formulas.h, RExpr.inline, specE, RExpr.subst, Ok, dsym, dsymE, eval, envOf, *]
+  · simp [f_gsl_sf_bessel_Kn_scaled, Formulas.d, Formulas.h, RExpr.inline, specE, RExpr.subst, dsym, dsymE, eval, diff, envOf, *]
+    try field_simp
+    try ring
+    all_goals (try simp)
+
+theorem fermi_dirac_int_d1 (n x : ℝ) (hI0 : Ident I "gsl_sf_fermi_dirac_int@0" x) :
+    HasDerivAt (fun t => evalT I (Function.update (envOf [n, x]) 1 t) (f_gsl_sf_fermi_dirac_int.value)) (evalT I (envOf [n, x]) (f_gsl_sf_fermi_dirac_int.d 1)) x := by
+  refine deriv_of_formula I _ _ _ _ ?_ ?_
+  · simp [f_gsl_sf_fermi_dirac_int, Formulas.d, Formulas.h, RExpr.inline, specE, RExpr.subst, Ok, dsym, dsymE, eval, envOf, *]
+  · simp [f_gsl_sf_fermi_dirac_int, Formulas.d, Formulas.h, RExpr.inline, specE, RExpr.subst, dsym, dsymE, eval, diff, envOf, *]
+    try field_simp
+    try ring
+    all_goals (try simp)
+
+theorem fermi_dirac_int_h2 (n x : ℝ) (hI0 : Ident I "gsl_sf_fermi_dirac_int@-1" x) :
+    HasDerivAt (fun t => evalT I (Function.update (envOf [n, x]) 1 t) (f_gsl_sf_fermi_dirac_int.d 1)) (evalT I (envOf [n, x]) (f_gsl_sf_fermi_dirac_int.h 2)) x := by
+  refine deriv_of_formula I _ _ _ _ ?_ ?_
+  · simp [f_gsl_sf_fermi_dirac_int, Formulas.d, Formulas.h, RExpr.inline, specE, RExpr.subst, Ok, dsym, dsymE, eval, envOf, *]
+  · simp [f_gsl_sf_fermi_dirac_int, Formulas.d, Formulas.h, RExpr.inline, specE, RExpr.subst, dsym, dsymE, eval, diff, envOf, *]
+    try field_simp
+    try ring
+    all_goals (try simp)
+
+theorem bessel_Jnu_d1 (n x : ℝ) (hI0 : Ident I "gsl_sf_bessel_Jnu@0" x) :
+    HasDerivAt (fun t => evalT I (Function.update (envOf [n, x]) 1 t) (f_gsl_sf_bessel_Jnu.value)) (evalT I (envOf [n, x]) (f_gsl_sf_bessel_Jnu.d 1)) x := by
+  refine deriv_of_formula I _ _ _ _ ?_ ?_
+  · simp [f_gsl_sf_bessel_Jnu, Formulas.d, Formulas.h, RExpr.inline, specE, RExpr.subst, Ok, dsym, dsymE, eval, envOf, *]
+  · simp [f_gsl_sf_bessel_Jnu, Formulas.d, Formulas.h, RExpr.inline, specE, RExpr.subst, dsym, dsymE, eval, diff, envOf, *]
+    try field_simp
+    try ring
+    all_goals (try simp)
+
+theorem bessel_Jnu_h2 (n x : ℝ) (hI0 : Ident I "gsl_sf_bessel_Jnu@-1" x) (hI1 : Ident I "gsl_sf_bessel_Jnu@1" x) :
+    HasDerivAt (fun t => evalT I (Function.update (envOf [n, x]) 1 t) (f_gsl_sf_bessel_Jnu.d 1)) (evalT I (envOf [n, x]) (f_gsl_sf_bessel_Jnu.h 2)) x := by
+  refine deriv_of_formula I _ _ _ _ ?_ ?_
+  · simp [f_gsl_sf_bessel_Jnu, Formulas.d, Formulas.h, RExpr.inline, specE, RExpr.subst, Ok, dsym, dsymE, eval, envOf, *]
+  · simp [f_gsl_sf_bessel_Jnu, Formulas.d, Formulas.h, RExpr.inline, specE, RExpr.subst, dsym, dsymE, eval, diff, envOf, *]
+    try field_simp
+    try ring
+    all_goals (try simp)
+
+theorem bessel_Ynu_d1 (n x : ℝ) (hI0 : Ident I "gsl_sf_bessel_Ynu@0" x) :
+    HasDerivAt (fun t => evalT I (Function.update (envOf [n, x]) 1 t) (f_gsl_sf_bessel_Ynu.value)) (evalT I (envOf [n, x]) (f_gsl_sf_bessel_Ynu.d 1)) x := by
+  refine deriv_of_formula I _ _ _ _ ?_ ?_
+  · simp [f_gsl_sf_bessel_Ynu, Formulas.d, Formulas.h, RExpr.inline, specE, RExpr.subst, Ok, dsym, dsymE, eval, envOf, *]
+  · simp [f_gsl_sf_bessel_Ynu, Formulas.d, Formulas.h, RExpr.inline, specE, RExpr.subst, dsym, dsymE, eval, diff, envOf, *]
+    try field_simp
+    try ring
+    all_goals (try simp)
+
+theorem bessel_Ynu_h2 (n x : ℝ) (hI0 : Ident I "gsl_sf_bessel_Ynu@-1" x) (hI1 : Ident I "gsl_sf_bessel_Ynu@1" x) :
+    HasDerivAt (fun t => evalT I (Function.update (envOf [n, x]) 1 t) (f_gsl_sf_bessel_Ynu.d 1)) (evalT I (envOf [n, x]) (f_gsl_sf_bessel_Ynu.h 2)) x := by
+  refine deriv_of_formula I _ _ _ _ ?_ ?_
+  · simp [f_gsl_sf_bessel_Ynu, Formulas.d, Formulas.h, RExpr.inline, specE, RExpr.subst, Ok, dsym, dsymE, eval, envOf, *]
+  · simp [f_gsl_sf_bessel_Ynu, Formulas.d, Formulas.h, RExpr.inline, specE, RExpr.subst, dsym, dsymE, eval, diff, envOf, *]
+    try field_simp
+    try ring
+    all_goals (try simp)
+
+theorem bessel_Inu_d1 (n x : ℝ) (hI0 : Ident I "gsl_sf_bessel_Inu@0" x) :
+    HasDerivAt (fun t => evalT I (Function.update (envOf [n, x]) 1 t) (f_gsl_sf_bessel_Inu.value)) (evalT I (envOf [n, x]) (f_gsl_sf_bessel_Inu.d 1)) x := by
+  refine deriv_of_formula I _ _ _ _ ?_ ?_
+  · simp [f_gsl_sf_bessel_Inu, Formulas.d, Formulas.h, RExpr.inline, specE, RExpr.subst, Ok, dsym, dsymE, eval, envOf, *]
+  · simp [f_gsl_sf_bessel_Inu, Formulas.d, Formulas.h, RExpr.inline, specE, RExpr.subst, dsym, dsymE, eval, diff, envOf, *]
+    try field_simp
+    try ring
+    all_goals (try simp)
+
+theorem bessel_Inu_h2 (n x : ℝ) (hI0 : Ident I "gsl_sf_bessel_Inu@-1" x) (hI1 : Ident I "gsl_sf_bessel_Inu@1" x) :
+    HasDerivAt (fun t => evalT I (Function.update (envOf [n, x]) 1 t) (f_gsl_sf_bessel_Inu.d 1)) (evalT I (envOf [n, x]) (f_gsl_sf_bessel_Inu.h 2)) x := by
+  refine deriv_of_formula I _ _ _ _ ?_ ?_
+  · simp [f_gsl_sf_bessel_Inu, Formulas.d, Formulas.h, RExpr.inline, specE, RExpr.subst, Ok, dsym, dsymE, eval, envOf, *]
+  · simp [f_gsl_sf_bessel_Inu, Formulas.d, Formulas.h, RExpr.inline, specE, RExpr.subst, dsym, dsymE, eval, diff, envOf, *]
+    try field_simp
+    try ring
+    all_goals (try simp)
+
+theorem bessel_Knu_d1 (n x : ℝ) (hI0 : Ident I "gsl_sf_bessel_Knu@0" x) :
+    HasDerivAt (fun t => evalT I (Function.update (envOf [n, x]) 1 t) (f_gsl_sf_bessel_Knu.value)) (evalT I (envOf [n, x]) (f_gsl_sf_bessel_Knu.d 1)) x := by
+  refine deriv_of_formula I _ _ _ _ ?_ ?_
+  · simp [f_gsl_sf_bessel_Knu, Formulas.d, Formulas.h, RExpr.inline, specE, RExpr.subst, Ok, dsym, dsymE, eval, envOf, *]
+  · simp [f_gsl_sf_bessel_Knu, Formulas.d, Formulas.h, RExpr.inline, specE, RExpr.subst, dsym, dsymE, eval, diff, envOf, *]
+    try field_simp
+    try ring
+    all_goals (try simp)
+
+theorem bessel_Knu_h2 (n x : ℝ) (hI0 : Ident I "gsl_sf_bessel_Knu@-1" x) (hI1 : Ident I "gsl_sf_bessel_Knu@1" x) :
+    HasDerivAt (fun t => evalT I (Function.update (envOf [n, x]) 1 t) (f_gsl_sf_bessel_Knu.d 1)) (evalT I (envOf [n, x]) (f_gsl_sf_bessel_Knu.h 2)) x := by
+  refine deriv_of_formula I _ _ _ _ ?_ ?_
+  · simp [f_gsl_sf_bessel_Knu, Formulas.d, Formulas.h, RExpr.inline, specE, RExpr.subst, Ok, dsym, dsymE, eval, envOf, *]
+  · simp [f_gsl_sf_bessel_Knu, Formulas.d, Formulas.h, RExpr.inline, specE, RExpr.subst, dsym, dsymE, eval, diff, envOf, *]
+    try field_simp
+    try ring
+    all_goals (try simp)
+
+theorem bessel_Knu_scaled_d1 (n x : ℝ) (hI0 : Ident I "gsl_sf_bessel_Knu_scaled@0" x) :
+    HasDerivAt (fun t => evalT I (Function.update (envOf [n, x]) 1 t) (f_gsl_sf_bessel_Knu_scaled.value)) (evalT I (envOf [n, x]) (f_gsl_sf_bessel_Knu_scaled.d 1)) x := by
+  refine deriv_of_formula I _ _ _ _ ?_ ?_
+  · simp [f_gsl_sf_bessel_Knu_scaled, Formulas.d, Formulas.h, RExpr.inline, specE, RExpr.subst, Ok, dsym, dsymE, eval, envOf, *]
+  · simp [f_gsl_sf_bessel_Knu_scaled, Formulas.d, Formulas.h, RExpr.inline, specE, RExpr.subst, dsym, dsymE, eval, diff, envOf, *]
+    try field_simp
+    try ring
+    all_goals (try simp)
+
+theorem bessel_Knu_scaled_h2 (n x : ℝ) (hI0 : Ident I "gsl_sf_bessel_Knu_scaled@-1" x) (hI1 : Ident I "gsl_sf_bessel_Knu_scaled@0" x) (hI2 : Ident I "gsl_sf_bessel_Knu_scaled@1" x) :
+    HasDerivAt (fun t => evalT I (Function.update (envOf [n, x]) 1 t) (f_gsl_sf_bessel_Knu_scaled.d 1)) (evalT I (envOf [n, x]) (f_gsl_sf_bessel_Knu_scaled.h 2)) x := by
+  refine deriv_of_formula I _ _ _ _ ?_ ?_
+  · simp [f_gsl_sf_bessel_Knu_scaled, Formulas.d, Formulas.h, RExpr.inline, specE, RExpr.subst, Ok, dsym, dsymE, eval, envOf, *]
+  · simp [f_gsl_sf_bessel_Knu_scaled, Formulas.d, Formulas.h, RExpr.inline, specE, RExpr.subst, dsym, dsymE, eval, diff, envOf, *]
+    try field_simp
+    try ring
+    all_goals (try simp)
+
+end MpVerif.C16
